@@ -188,7 +188,9 @@ def _check_fit2d_rows(ctx, truth, valid, flux, error, info, witness, keyp, idx):
         n_viol += int(np.sum(badside & ~near))
         n_sat += int(np.sum(~badside & ~near))
     eps_r = 1e-13 * (1 + float(np.max(np.abs(rf)))) + float(dl)
-    ctol = 1e-9 * np.abs(chi) + np.asarray(np.sum(wf * (2 * np.abs(res) * eps_r + eps_r ** 2), axis=1), float) + 1e-300
+    # (the relative term only for finite values: an infinite reported chi^2 must not buy itself an infinite tolerance - it is
+    #  accepted below only where the reference itself reaches the '>= 1e30' of an excluded model)
+    ctol = 1e-9 * np.where(np.isfinite(chi), np.abs(chi), 0.0) + np.asarray(np.sum(wf * (2 * np.abs(res) * eps_r + eps_r ** 2), axis=1), float) + 1e-300
     lo_c = np.asarray(obj_rep, float) + pen_sure
     hi_c = lo_c + pen_maybe
     lo_c = np.where(lo_c >= 1e29, 1e29, lo_c)      # "chi^2 >= 1e30" up to summation order
@@ -349,7 +351,7 @@ def check_fit3d(ctx, truth, valid, flux, error, info, witness, keyp='fit3d', che
     rows = np.arange(nrow)
     minL = np.min(Lb, axis=1)
     minH = np.min(Hb, axis=1)
-    tolrow = 1e-9 * np.abs(chi) + np.max(ctol, axis=1) + 1e-300
+    tolrow = 1e-9 * np.where(np.isfinite(chi), np.abs(chi), 0.0) + np.max(ctol, axis=1) + 1e-300          # (finite values only: see check_fit2d)
     # chi2 is the minimum over the grid
     fin = np.isfinite(chi)
     bad = np.where(~((chi >= minL - tolrow) & (chi <= minH + tolrow)) & check_min)[0]
